@@ -24,12 +24,15 @@ def evidence(c):
         elif v[1] == 0 and f not in ('tmpfile_s',):
             gaps.append('no preemption landed inside %s' % f)
     paths = {}
+    covtot = st.get('coverage_total', {})
     for s in PATH_SYMS:
         hit = sum(n for k, n in cov.items() if k == s or k.endswith(':' + s) or k == s.split(':')[-1])
         paths[s] = hit
-        if hit == 0:
+        present = any(k == s or k.endswith(':' + s) or k == s.split(':')[-1] for k in covtot)
+        if hit == 0 and present:
             gaps.append('code path %s not reached' % s)
-    covtot = st.get('coverage_total', {})
+        elif hit == 0:
+            paths[s] = 'no such symbol in this build (renamed or inlined)'
     percov = dict((f, (cov.get(f, 0), covtot[f])) for f in covtot)
     unreached_funcs = sorted(f for f, (h, t) in percov.items() if h == 0)
     never = sorted(f for f, v in fn.items() if v[0] == 0)
